@@ -28,7 +28,7 @@ template<typename T> struct ClsKind { typedef ds::quantiles_sketch<T, typename I
 
 bool is_pow2(u64 w) { return w != 0 && (w & (w - 1)) == 0; }
 
-enum { Q_BATCH = 1, Q_NAN = 2, Q_MERGE = 3, Q_NEW = 4, Q_READ = 5, Q_COPY = 6, Q_SERDE = 7, Q_INVALID = 8, Q_ITER = 9 };
+enum { Q_BATCH = 1, Q_NAN = 2, Q_MERGE = 3, Q_NEW = 4, Q_READ = 5, Q_COPY = 6, Q_SERDE = 7, Q_INVALID = 8, Q_ITER = 9, Q_FILL = 10 };
 
 // ------------------------------------------------------------------ C07 executor, generic over sketch kind and item type
 template<typename Kind, typename T> struct C07Exec {
@@ -82,7 +82,13 @@ template<typename Kind, typename T> struct C07Exec {
   }
   template<typename TT = T, typename std::enable_if<!std::is_arithmetic<TT>::value, int>::type = 0>
   void space_bound(const ds::kll_sketch<T, Less, talloc<T>>&, const std::string&) {}
-  void space_bound(const ds::req_sketch<T, Less, talloc<T>>&, const std::string&) {}
+  // REQ publishes no closed form; O(k log^1.5(n/k)) with a constant calibrated on the pinned tree: over k in {4..50}, both modes, sorted /
+  // reversed / random streams up to 2*10^6 items and repeated merges the ratio retained / (k (log2(n/k)+2)^1.5) never exceeded 2.46; 8 is demanded
+  void space_bound(const ds::req_sketch<T, Less, talloc<T>>& s, const std::string& w) {
+    const double n = static_cast<double>(s.get_n()), k = s.get_k(); if (n <= 0) return;
+    const double bound = 8.0 * k * std::pow(std::log2(std::max(1.0, n / k)) + 2.0, 1.5);
+    ctx.require(static_cast<double>(s.get_num_retained()) <= bound, fp("retained-above-space-bound").c_str(), "retained=" + std::to_string(s.get_num_retained()) + " n=" + std::to_string(s.get_n()) + " k=" + std::to_string(s.get_k()) + " bound " + std::to_string(bound) + w);
+  }
 
   // reader step: everything that goes through the (cached) sorted view
   void check_read(Node& n, i64 salt, const char* after) {
@@ -185,8 +191,15 @@ template<typename Kind, typename T> struct C07Exec {
       if (!n.sk && s.kind != Q_NEW) { Node& z = nodes[0]; (void)z; continue; }
       switch (s.kind) {
         case Q_NEW: n.sk.reset(new S(Kind::make(static_cast<int>(s.b), hra))); n.model.clear(); break;
-        case Q_BATCH: { const i64 count = s.c >> 3, pat = s.c & 7; for (i64 j = 0; j < count; j++) { i64 v = fam::feed_value(s.b, j, count, pat); n.sk->update(Item<T>::make(v)); n.model.push_back(v); } break; }
+        case Q_BATCH: { i64 count = s.c >> 3; const i64 pat = s.c & 7;
+          // counts above 100000 are relative to the sketch's k (capacity boundaries: k, 2k, 3k, 6k and their neighbours), decided at execution time
+          if (count >= 100000) { static const int mult[] = { 1, 2, 3, 6 }; const i64 code = count - 100000; count = static_cast<i64>(n.sk->get_k()) * mult[(code / 3) % 4] + (code % 3) - 1; if (count < 0) count = 0; ctx.probe("k_relative_batch"); } for (i64 j = 0; j < count; j++) { i64 v = fam::feed_value(s.b, j, count, pat); n.sk->update(Item<T>::make(v)); n.model.push_back(v); } break; }
         case Q_NAN: nan_update(*n.sk); break;
+        case Q_FILL: {   // bring n up to a capacity boundary of this sketch (multiples of k and their neighbours): boundary-value placement of later merges
+          static const int mult[] = { 3, 3, 6, 1, 2 }; static const int off[] = { 0, 0, -1, 1 };
+          const i64 target = static_cast<i64>(n.sk->get_k()) * mult[static_cast<size_t>(s.b) % 5] + off[static_cast<size_t>(s.b / 5) % 4];
+          for (i64 j = static_cast<i64>(n.model.size()); j < target; j++) { i64 v = fam::feed_value(s.c, j, target, 2); n.sk->update(Item<T>::make(v)); n.model.push_back(v); }
+          ctx.probe("fill_to_capacity_boundary"); break; }
         case Q_MERGE: {
           Node& src = nodes[static_cast<size_t>(s.b) % nodes.size()];
           if (!src.sk || &src == &n || !Kind::mergeable(*n.sk, *src.sk)) break;
@@ -207,7 +220,7 @@ template<typename Kind, typename T> struct C07Exec {
     }
     ctx.probe("coin_bits_drawn", rnd.bits_drawn);
   }
-  static const char* step_name(int k) { static const char* nm[] = { "?", "batch", "nan", "merge", "new", "read", "copy", "serde", "invalid_query", "iterate" }; return (k >= 1 && k <= 9) ? nm[k] : "step"; }
+  static const char* step_name(int k) { static const char* nm[] = { "?", "batch", "nan", "merge", "new", "read", "copy", "serde", "invalid_query", "iterate", "fill_to_boundary" }; return (k >= 1 && k <= 10) ? nm[k] : "step"; }
 };
 
 struct C07World: World {
@@ -221,8 +234,8 @@ struct C07World: World {
     int n = static_cast<int>(rp.range(3, tier ? 40 : 18));
     for (int i = 0; i < n; i++) {
       Step s; unsigned roll = static_cast<unsigned>(rp.below(100)); s.a = static_cast<i64>(rp.below(4));
-      if (roll < 38) { s.kind = Q_BATCH; s.b = static_cast<i64>(rp.below(2000)); static const i64 cnt[] = { 0, 1, 2, 3, 7, 8, 9, 16, 17, 40, 100, 130, 400, 1000, 3000 }; i64 c = rp.pick(cnt); if (!tier && c > 1000) c = 1000; s.c = c * 8 + static_cast<i64>(rp.below(8)); }
-      else if (roll < 41) s.kind = Q_NAN;
+      if (roll < 38) { s.kind = Q_BATCH; s.b = static_cast<i64>(rp.below(2000)); static const i64 cnt[] = { 0, 1, 2, 3, 7, 8, 9, 16, 17, 40, 100, 130, 400, 1000, 3000 }; i64 c = rp.pick(cnt); if (!tier && c > 1000) c = 1000; if (rp.chance(1, 4)) c = 100000 + static_cast<i64>(rp.below(12)); s.c = c * 8 + static_cast<i64>(rp.below(8)); }
+      else if (roll < 41) { if (rp.chance(1, 3)) s.kind = Q_NAN; else { s.kind = Q_FILL; s.b = static_cast<i64>(rp.below(20)); s.c = static_cast<i64>(rp.below(2000)); } }
       else if (roll < 58) { s.kind = Q_MERGE; s.b = static_cast<i64>(rp.below(4)); s.c = static_cast<i64>(rp.below(16)); }
       else if (roll < 66) { s.kind = Q_NEW; s.b = static_cast<i64>(rp.below(8)); }
       else if (roll < 84) { s.kind = Q_READ; s.b = static_cast<i64>(rp.below(1000)); }
@@ -288,16 +301,29 @@ template<typename Kind> struct C08Exec {
     ctx.check();
   }
 
+  // the published error of a merged sketch is the one of the smallest k that went into it (kll); classic quantiles lower their k themselves
+  void published_error(const ds::kll_sketch<float, std::less<float>, talloc<float>>& s, uint16_t mk) {
+    typedef ds::kll_sketch<float, std::less<float>, talloc<float>> KS;
+    for (int pmf = 0; pmf < 2; pmf++) ctx.require(s.get_normalized_rank_error(pmf != 0) == KS::get_normalized_rank_error(mk, pmf != 0), fp("published-error-not-that-of-smallest-k-merged").c_str(),
+      "publishes " + hexd(s.get_normalized_rank_error(pmf != 0)) + ", smallest k merged in is " + std::to_string(mk) + " -> " + hexd(KS::get_normalized_rank_error(mk, pmf != 0)));
+    ctx.probe("published_error_checked");
+  }
+  void published_error(const ds::quantiles_sketch<float, std::less<float>, talloc<float>>& s, uint16_t mk) {
+    typedef ds::quantiles_sketch<float, std::less<float>, talloc<float>> QS;
+    ctx.require(s.get_normalized_rank_error(false) == QS::get_normalized_rank_error(s.get_k(), false) && s.get_k() <= std::max<uint16_t>(mk, s.get_k()), fp("published-error-inconsistent-with-k").c_str(), "");
+  }
+  void published_error(const ds::req_sketch<float, std::less<float>, talloc<float>>&, uint16_t) {}
   void run_martingale() {
     const int hra = static_cast<int>(p.cfg[2] & 1);
     std::vector<std::unique_ptr<S>> sk(3);
     SimRandom main_rnd(p.run_seed);
-    for (auto& x : sk) x.reset(new S(Kind::make(static_cast<int>(p.cfg[1]), hra)));
+    for (size_t i = 0; i < sk.size(); i++) sk[i].reset(new S(Kind::make(static_cast<int>(p.cfg[1]) + (std::is_same<Kind, KllKind<float>>::value ? static_cast<int>(2 * i) : 0), hra)));   // kll: three different k from the start, so that merge trees mix k
+    std::vector<uint16_t> min_k; for (auto& x : sk) min_k.push_back(x->get_k());   // the smallest k among everything compacted that was merged into each sketch
     int idx = 0;
     for (const Step& s : p.steps) {
       ctx.begin_step(idx++, s.kind);
       std::unique_ptr<S>& cur = sk[static_cast<size_t>(s.a) % 3];
-      if (s.kind == K_NEW) { cur.reset(new S(Kind::make(static_cast<int>(s.b), hra))); continue; }
+      if (s.kind == K_NEW) { cur.reset(new S(Kind::make(static_cast<int>(s.b), hra))); min_k[static_cast<size_t>(s.a) % 3] = cur->get_k(); continue; }
       if (!cur) continue;
       if (s.kind == K_UPD) {
         for (i64 j = 0; j < s.c; j++) {
@@ -317,7 +343,10 @@ template<typename Kind> struct C08Exec {
         const S& a = *cur; const S& b = *src;
         auto op = [&]() { S* c = new S(a); c->merge(b); return c; };
         check_operation(op, before, a.get_n() + b.get_n(), "merge");
+        const bool src_compacted = src->is_estimation_mode();   // a source that never compacted hands over raw items: its k has not cost any accuracy
         main_rnd.install(); cur->merge(*src); SimRandom::uninstall();
+        if (src_compacted) min_k[static_cast<size_t>(s.a) % 3] = std::min(min_k[static_cast<size_t>(s.a) % 3], min_k[static_cast<size_t>(s.b) % 3]);
+        published_error(*cur, min_k[static_cast<size_t>(s.a) % 3]);
         ctx.nontrivial = true;
       }
       ctx.t(static_cast<u64>(cur->get_n())); ctx.t(static_cast<u64>(cur->get_num_retained()));
@@ -382,7 +411,7 @@ struct C08World: World {
       Step s; unsigned roll = static_cast<unsigned>(rp.below(100)); s.a = static_cast<i64>(rp.below(3));
       if (roll < 60) { s.kind = K_UPD; s.b = static_cast<i64>(rp.below(1000)); s.c = kind == 1 ? rp.range(1, 40) : rp.range(1, tier ? 60 : 30); }
       else if (roll < 85) { s.kind = K_MERGE; s.b = static_cast<i64>(rp.below(3)); }
-      else { s.kind = K_NEW; s.b = static_cast<i64>(rp.below(kind == 2 ? 3 : 2)); }
+      else { s.kind = K_NEW; s.b = static_cast<i64>(rp.below(kind == 2 ? 3 : kind == 0 ? 5 : 2)); }   // kll: k in {8, 8, 9, 12, 20} so that merge trees mix k
       p.steps.push_back(s);
     }
     return p;
